@@ -617,6 +617,10 @@ def cases(draw, tier):
     *batch, m, n = shp
     batch = tuple(batch)
     case = {"ep": ep, "recipe": r}
+    if ep == "root_decomposition" and draw(st.integers(0, 2)) == 0:
+        # call history on the same object: the Lanczos inverse root is computed first and caches its by-product root;
+        # the differentiated root_decomposition() is then a cache hit on an output of that earlier Function call
+        case["after_root_inv"] = True
     rs = [r]
     if ep in ("op_add", "op_mul"):
         cfg = gen.Cfg(dt="f64", max_dim=5, exclude=ex)
@@ -892,6 +896,8 @@ def lib_out(ep, b):
     if ep == "cholesky":
         return (_dense(op.cholesky()),)
     if ep == "root_decomposition":
+        if c.get("after_root_inv"):
+            op.root_inv_decomposition(method="lanczos")
         root = _dense(op.root_decomposition().root)
         return (root @ root.mT,)
     if ep == "pivoted_cholesky":
